@@ -9,6 +9,7 @@
   compare the helpers' outputs limb for limb).
 -/
 import MpirProofs.Lemmas.Toom8Main
+import MpirProofs.Lemmas.Toom8Dispatch
 
 namespace Mpir.Toom8
 open Mpir.MulAlgo (Interp)
@@ -81,8 +82,10 @@ theorem toom_interp16_binvert :
 
 /-- toom8h_mul.c:96-150: for EVERY (an, bn) in the asserted domain (an ≥ bn ≥ 86, 4·an ≤ 13·bn) the cascade's
     decomposition — including the two "recover from badly chosen splitting" repairs — satisfies the C's own ASSERTs
-    0 < s ≤ n, 0 < t ≤ n, half || s + t > 3, n > 2; the degrees add up to 14 (half = 0) or 15 (half = 1); q ≥ 3. -/
-theorem toom8h_split_ok (an bn : Nat) (h1 : an ≥ bn) (h2 : bn ≥ 86) (h3 : an * 4 ≤ bn * 13) : SplitOk (split an bn) :=
+    0 < s ≤ n, 0 < t ≤ n, half || s + t > 3, n > 2; the degrees add up to 14 (half = 0) or 15 (half = 1); q ≥ 3;
+    and the pointwise products are on n + 1 < bn limbs (A(∞)·B(∞) on s, t ≤ n limbs), so the recursion through
+    TOOM8H_MUL_N_REC / TOOM8H_MUL_REC is on strictly smaller sizes. -/
+theorem toom8h_split_ok (an bn : Nat) (h1 : an ≥ bn) (h2 : bn ≥ 86) (h3 : an * 4 ≤ bn * 13) : SplitOk bn (split an bn) :=
   split_ok an bn h1 h2 h3
 
 -- every shape occurs (smallest sizes), and both repairs
@@ -120,5 +123,49 @@ theorem toom8_sqr_exact_of_asserts (sqr : Nat → Nat) (hsqr : ∀ x, sqr x = x 
 example : toom8_sqr_n (fun x => x * x) (B ^ 57 + 12345) 58 = some ((B ^ 57 + 12345) * (B ^ 57 + 12345)) :=
   toom8_sqr_exact _ (fun _ => rfl) _ _ (by decide)
 example : toom8_sqr_n (fun x => x * x) 5 41 = none ∧ toom8_sqr_n (fun x => x * x) 5 57 = none := by decide
+
+/-! ### composition with the GENERATED dispatch skeletons (Mpir/Gen/MulDispatch.lean, thresholds of Mpir/Gen/Params.lean) -/
+open Mpir.Skel Mpir.Gen Mpir.MulDispatch in
+/-- PARTIAL (full statement: "for every n ≥ 1 below MUL_FFT_FULL_THRESHOLD the 2n limbs mpn_mul_n stores are
+    toLimbs (2n) (a·b)").  Proved, for EVERY parameter record satisfying `Valid` and EVERY n ≥ 1: the product call the
+    generated skeleton of mpn_mul_n (mul_n.c:282-330) records is mpn_mul_basecase, mpn_mul_fft_main, or a callee
+    (Karatsuba, Toom-3, Toom-4, Toom-8.5) that is called inside its size domain (`mul_n_dispatch_safe`) and whose
+    value-level model returns x·y for ALL operand values — so below the FFT threshold every size has an exactness
+    theorem for the algorithm selected.  This is one step of the strong induction on n: inside each callee the
+    recursive products are replaced by the exact product (`mul`), which is the induction hypothesis — they are made
+    on strictly fewer limbs (Toom-8.5: `toom8h_split_ok`, n + 1 < bn; Karatsuba models its own recursion).
+    ASSUMED leaves / missing for the full statement: mpn_mul_basecase (assembly; limb-level C model in C01_leaves),
+    the FFT, the size arguments of the recursive calls of Toom-3/4 (value-level models carry no sizes), limb-level
+    carries and buffers inside the callees. -/
+theorem mpn_mul_n_exact_partial (P : Params) (hP : Valid P) (n : Nat) (hn : 1 ≤ n) (e : Ev)
+    (he : e ∈ products (runMulN P n)) :
+    e.name = "mpn_mul_basecase" ∨ e.name = "mpn_mul_fft_main" ∨ ∀ x y, callValue8 P e x y = some (x * y) :=
+  mulN_call_exact P hP n hn e he
+
+open Mpir.Skel Mpir.Gen Mpir.MulDispatch in
+/-- PARTIAL, same for mpn_sqr (mul_n.c:332-387): the recorded call is a basecase, the FFT, or mpn_kara_sqr_n /
+    mpn_toom3_sqr_n / mpn_toom4_sqr_n / mpn_toom8_sqr_n inside its domain (`sqr_dispatch_safe`) with a value-level model
+    returning x² for ALL x.  mpn_toom8_sqr_n has its own model; the other three squarings are represented by the model
+    of the corresponding multiplication with b = a (the ops of those names are compared with exactly that on every
+    check) — their squaring-specific code (toom3_mul_n.c / toom4_mul_n.c) is NOT separately mirrored.
+    `h58`: the minimum the decomposition of toom8_sqr_n.c needs (true for the tree's parameters, see the example). -/
+theorem mpn_sqr_exact_partial (P : Params) (hP : Valid P) (h58 : 58 ≤ P.MPN_TOOM8_SQR_N_MINSIZE) (n : Nat) (hn : 1 ≤ n) (e : Ev)
+    (he : e ∈ products (runSqr P n)) :
+    e.name = "mpn_mul_basecase" ∨ e.name = "mpn_sqr_basecase" ∨ e.name = "mpn_mul_fft_main" ∨
+    ∀ x, callValue8 P e x x = some (x * x) :=
+  sqr_call_exact P hP h58 n hn e he
+
+-- non-vacuity with the tree's own parameters: n = 238 … 3519 select Toom-8.5, squaring 321 … select Toom-8
+open Mpir.Skel Mpir.Gen Mpir.MulDispatch in
+example : products (runMulN params 238) = [⟨"mpn_toom8h_mul", [.ptr 1 0, .ptr 2 0, .sz 238, .ptr 3 0, .sz 238]⟩]
+    ∧ products (runSqr params 321) = [⟨"mpn_toom8_sqr_n", [.ptr 1 0, .ptr 2 0, .sz 321]⟩]
+    ∧ (58 : Int) ≤ params.MPN_TOOM8_SQR_N_MINSIZE := by decide
+open Mpir.Skel Mpir.Gen Mpir.MulDispatch in
+example (x y : Nat) : callValue8 params ⟨"mpn_toom8h_mul", [.ptr 1 0, .ptr 2 0, .sz 238, .ptr 3 0, .sz 238]⟩ x y = some (x * y) := by
+  rcases mpn_mul_n_exact_partial params params_valid 238 (by decide)
+    ⟨"mpn_toom8h_mul", [.ptr 1 0, .ptr 2 0, .sz 238, .ptr 3 0, .sz 238]⟩ (by decide) with h | h | h
+  · exact absurd h (by decide)
+  · exact absurd h (by decide)
+  · exact h x y
 
 end Mpir.Toom8
